@@ -1714,8 +1714,17 @@ class Fxp():
     # endregion
 
     # numpy functions dispatch
+    # binary ufuncs whose first input is not a Fxp are the reflected operators (a NumPy scalar or array on the left of
+    # an operator calls the ufunc instead of returning NotImplemented): same result as a Python number on the left
+    _reflected_ufuncs = {np.add: '__radd__', np.subtract: '__rsub__', np.multiply: '__rmul__',
+                         np.bitwise_and: '__rand__', np.bitwise_or: '__ror__', np.bitwise_xor: '__rxor__'}
+
     def __array_ufunc__(self, ufunc, method, *inputs, **kwargs):
         if method == '__call__':
+            if ufunc in self._reflected_ufuncs and len(inputs) == 2 and not kwargs and inputs[1] is self and \
+                not isinstance(inputs[0], Fxp):
+                return getattr(self, self._reflected_ufuncs[ufunc])(inputs[0])
+
             if ufunc in _NUMPY_HANDLED_FUNCTIONS:
                 # dispatch function to implemented in fxpmath
                 return self._set_array_output_type(_NUMPY_HANDLED_FUNCTIONS[ufunc](*inputs, **kwargs))
